@@ -434,6 +434,10 @@ func (w *World) parseVal(tok string) (interface{}, error) {
 	if err != nil {
 		return nil, err
 	}
+	if w.Opts["nilvals"] == "1" && string(b) == "null" {
+		// set-style use: the value is the nil interface (marshaled as null)
+		return nil, nil
+	}
 	switch w.Opts["vt"] {
 	case "int":
 		var v int
@@ -458,7 +462,7 @@ func (w *World) parseVal(tok string) (interface{}, error) {
 
 func showVal(v interface{}) string {
 	if v == nil {
-		return "nil"
+		return hexs([]byte("null")) // a nil value and a value decoded from null are the same contents
 	}
 	if r, ok := v.(json.RawMessage); ok {
 		return hexs(r)
@@ -791,6 +795,14 @@ func (w *World) Exec(line string) (res Result) {
 					return 1, nil
 				}
 				return 0, nil
+			}
+		}
+		// only the sign of a KeyCompare result is meaningful: answer like a subtraction-style comparator would
+		{
+			inner := cfg.KeyCompare
+			cfg.KeyCompare = func(a, b interface{}) (int, error) {
+				c, err := inner(a, b)
+				return 7 * c, err
 			}
 		}
 		if _, err := r.LoadMast(ctx, cfg); err != nil {
